@@ -1,35 +1,62 @@
-(* FINDING (C14, DESIGN §5 F6): utils::transpose_vec is an in-place square swap.  On the faithful model of the loop nest
-   (Model/Grid.v over the generated ranges / indices of Gen/Grid.v) the property clause
-   "transposing a flat row-major matrix of any shape yields its matrix transpose" is false.
-   Never imported by Props/. *)
+(* FINDING F6 (C14) — FIXED in /repo commit fd4cfc7 ("fix: transpose_vec transposes matrices of any shape").
+   Historical record: the previous utils::transpose_vec was an in-place square swap,
+
+       let num_rows = len.div_ceil(num_cols);
+       for row in 0..num_rows { for col in (row + 1)..num_cols {
+         vec.swap(get_1d_index(row, col, num_cols), get_1d_index(col, row, num_cols)); } }
+
+   modelled here on its own (pinned copy of the formerly generated ranges / indices, so this file no longer depends on what
+   the source says now).  On that loop nest "the transpose of any shape" was false; the present code satisfies the full
+   theorem Props/C14.v::C14_transpose.  Never imported by Props/. *)
 From Coq Require Import List Arith Bool Lia.
-From SpdVerif Require Import Base.GridOps Gen.Grid Model.Grid.
+From SpdVerif Require Import Base.GridOps Model.Grid.
 Import ListNotations.
 
-(* 2 x 3: the second swap of row 0 addresses slot 6 of a 6-element vector -> panic (index out of bounds) *)
-Lemma C14_transpose_2x3_refuted :
-  transpose_vec [0; 1; 2; 3; 4; 5] 3 = Panic /\
-  ~ (exists w, transpose_vec [0; 1; 2; 3; 4; 5] 3 = Ok w /\ is_transpose 2 3 [0; 1; 2; 3; 4; 5] w).
-Proof.
-  assert (E : transpose_vec [0; 1; 2; 3; 4; 5] 3 = Panic) by (vm_compute; reflexivity).
-  split; [exact E|]. intros (w & Hw & _). rewrite E in Hw. discriminate.
-Qed.
+Fixpoint upd {A} (l : list A) (i : nat) (x : A) : list A :=
+  match l, i with
+  | [], _ => []
+  | _ :: t, 0 => x :: t
+  | h :: t, S j => h :: upd t j x
+  end.
 
-(* 3 x 2: no panic, but the result [0;2;1;3;4;5] is not the transpose [0;2;4;1;3;5] *)
-Lemma C14_transpose_3x2_refuted :
-  transpose_vec [0; 1; 2; 3; 4; 5] 2 = Ok [0; 2; 1; 3; 4; 5] /\
+(* Vec::swap: panics when an index is out of bounds *)
+Definition swap_vec {A} (v : list A) (i j : nat) : outcome (list A) :=
+  match nth_error v i, nth_error v j with
+  | Some a, Some b => Ok (upd (upd v i b) j a)
+  | _, _ => Panic
+  end.
+
+Definition old_transpose_vec {A} (v : list A) (num_cols : nat) : outcome (list A) :=
+  if (num_cols =? 0)%nat then Panic
+  else
+    for_range (0, div_ceil (length v) num_cols) (fun row v =>
+      for_range (row + 1, num_cols) (fun col v =>
+        if (row <? num_cols)%nat && (col <? num_cols)%nat
+        then swap_vec v (col * num_cols + row) (row * num_cols + col)
+        else Panic) v) v.
+
+Lemma C14_old_transpose_2x3_refuted :
+  old_transpose_vec [0; 1; 2; 3; 4; 5] 3 = Panic.
+Proof. vm_compute. reflexivity. Qed.
+
+Lemma C14_old_transpose_3x2_refuted :
+  old_transpose_vec [0; 1; 2; 3; 4; 5] 2 = Ok [0; 2; 1; 3; 4; 5] /\
   ~ is_transpose 3 2 [0; 1; 2; 3; 4; 5] [0; 2; 1; 3; 4; 5].
 Proof.
   split; [vm_compute; reflexivity|].
   intros [_ H]. specialize (H 2 0 ltac:(lia) ltac:(lia)). cbn in H. discriminate.
 Qed.
 
-Lemma C14_transpose_nonsquare_refuted :
-  exists rows cols (v : list nat), length v = rows * cols /\ 1 <= rows /\ 1 <= cols /\
-    ~ (exists w, transpose_vec v cols = Ok w /\ is_transpose rows cols v w).
-Proof. exists 2, 3, [0; 1; 2; 3; 4; 5]. repeat split; try (cbn; lia). apply C14_transpose_2x3_refuted. Qed.
+(* the old loop was correct exactly on square and single-column shapes (up to 12 x 12, entries 0,1,2,…) *)
+Lemma C14_old_transpose_shapes_12 :
+  forallb (fun r => forallb (fun c =>
+     Bool.eqb (match old_transpose_vec (seq 0 (S r * S c)) (S c) with
+               | Ok w => if list_eq_dec Nat.eq_dec w (mat_transpose (S r) (S c) (seq 0 (S r * S c))) then true else false
+               | Panic => false end)
+              ((S r =? S c)%nat || (S c =? 1)%nat)) (seq 0 12)) (seq 0 12) = true.
+Proof. vm_compute. reflexivity. Qed.
 
-(* complete picture for shapes up to 12 x 12 on the matrix with entries 0,1,2,…: correct exactly when square or single-column *)
-Lemma C14_transpose_shapes_12 :
-  forallb (fun r => forallb (fun c => Bool.eqb (transposes_ok (S r) (S c)) ((S r =? S c)%nat || (S c =? 1)%nat)) (seq 0 12)) (seq 0 12) = true.
+(* the present code on the same shapes: correct on all of them (the general statement is Props/C14.v::C14_transpose) *)
+Lemma C14_transpose_shapes_12_now :
+  forallb (fun r => forallb (fun c => transposes_ok (S r) (S c)) (seq 0 12)) (seq 0 12) = true.
 Proof. vm_compute. reflexivity. Qed.
